@@ -204,7 +204,8 @@ func c16IngestPool(c *mc.Ctx, workers int) {
 		nblocks = []int{2, 5, 9}[c.Choose(3)]
 	}
 	chanCap := caps[c.Choose(len(caps))]
-	failAt := c.Choose(1 + 2*nblocks) // 0 = healthy store; k = the k-th object-store write fails
+	failAt := c.Choose(1 + 2*nblocks)            // 0 = healthy store; k = the k-th object-store write fails
+	persistent := failAt > 0 && c.Choose(2) == 1 // ... and so does every later write (several workers see an error)
 	rows := keyedRows(3*nblocks - 1)
 	blocks, srt := sortedBlocksOf(rows)
 	// sequential reference: one worker, native
@@ -218,11 +219,15 @@ func c16IngestPool(c *mc.Ctx, workers int) {
 	if err != nil {
 		panic(err)
 	}
-	desc := fmt.Sprintf("ingest pool: %d blocks, %d workers, block channel capacity %d, store write #%d fails (0 = none)", len(blocks), workers, chanCap, failAt)
+	desc := fmt.Sprintf("ingest pool: %d blocks, %d workers, block channel capacity %d, store write #%d fails (0 = none; every later write too: %v)", len(blocks), workers, chanCap, failAt, persistent)
 	c.Logf("%s", desc)
 	setRoot(desc)
 	db := stores.NewMemStore()
-	db.FailWriteAt = failAt
+	if persistent {
+		db.FailWriteFrom = failAt
+	} else {
+		db.FailWriteAt = failAt
+	}
 	var got []byte
 	var gerr error
 	s := scheduleDeep(c, 6, func() {
@@ -658,7 +663,7 @@ func init() {
 		ID:    "C16",
 		Level: "model_checking",
 		Rule: "stateless schedule exploration (DFS over scheduler decisions with iterative preemption bounding) of the REAL pipeline code under a cooperative scheduler: every go statement, channel send / receive / range / close, reflect.Select, WaitGroup operation and Mutex lock AND unlock of inserter.go, sorter.go, diff.go, merger.go, row_collector.go is rewritten at build time into a scheduling point; channel contents live in the scheduler. " +
-			"Harnesses: ingest worker pool (2..3 blocks of 3 rows, 2..3 workers, block channel capacity 0/1/10, each object-store write failing in turn); sorter producer -> inserter with and without a spilled chunk; differ + consumer (with failing store reads); merger (two differs, select loop, collector) + consumer for three merge shapes - five threads over unbuffered channels, explored with DELAY bounding (every departure from the deterministic default schedule counts) instead of preemption bounding; the same merger over a store whose k-th read fails once, or whose every read from the k-th on fails (k = 1..14). " +
+			"Harnesses: ingest worker pool (2..3 blocks of 3 rows, 2..3 workers, block channel capacity 0/1/10, each object-store write failing in turn, once or from then on); sorter producer -> inserter with and without a spilled chunk; differ + consumer (with failing store reads); merger (two differs, select loop, collector) + consumer for three merge shapes - five threads over unbuffered channels, explored with DELAY bounding (every departure from the deterministic default schedule counts) instead of preemption bounding; the same merger over a store whose k-th read fails once, or whose every read from the k-th on fails (k = 1..14). " +
 			"Every complete schedule within the preemption bound must end (no deadlock / livelock within the horizon), have no send on closed / double close, no happens-before data race on the inserter's shared fields (vector clocks), return the 1-worker sequential result, and report an injected store error to the caller. " +
 			"Progress bars (pkg/pbar, used by commit and merge): every sequence of up to 3 operations {Incr, IncrBy, SetCurrent(0..4), SetTotal(0..4)} on a bar created with total {-1,0,1,3}, ended by Done or Abort and Container.Wait, must return - a build-time hang check turns waiting for a bar that is still running into a reported hang instead of blocking. " +
 			"Cross-check (harness race-detector-free-running, NOT an enumeration of schedules): the same harness bodies, with 2..4 workers and up to 9 blocks, run without the scheduler in a binary compiled with the Go race detector, 6 (thorough 40) repetitions per configuration; any race report is a violation - this covers unsynchronised accesses the cooperative scheduler cannot see. " +
